@@ -187,7 +187,7 @@ func (c *checker) tryReplayOnce(v Violation, class string, warm int) (*Violation
 	f.Write(b)
 	f.Close()
 	defer os.Remove(name)
-	jr := c.runWorker(1, 120*time.Second, "-replay", name, "-samples", "1", "-warm", fmt.Sprint(warm))
+	jr := c.runWorker(1, 120*time.Second, "-replay", name, "-samples", "1", "-warm", fmt.Sprint(warm), "-chunk", fmt.Sprint(c.chunkFrom))
 	if jr.err != nil || jr.res == nil {
 		return nil, "", false
 	}
@@ -322,6 +322,7 @@ func (c *checker) shrinkAndWrite(v Violation, class string, raceLog string, chun
 		got, lg, ok = c.tryReplay(best, class)
 	}
 	rf.Warm = c.warm
+	rf.ChunkFrom = chunkFrom
 	if ok {
 		best = *got
 		bestLog = lg
@@ -409,7 +410,23 @@ func cmdReplay(path string) int {
 		fmt.Fprintln(os.Stderr, "MACHINERY: build failed:", err)
 		return 2
 	}
-	c := &checker{cfg: cfg, tier: rf.Tier, seed: rf.BatchSeed, b: bd, scratch: scratch, par: 1, thin: 1, warm: rf.Warm}
+	c := &checker{cfg: cfg, tier: rf.Tier, seed: rf.BatchSeed, b: bd, scratch: scratch, par: 1, thin: 1, warm: rf.Warm, chunkFrom: rf.ChunkFrom}
+	if rf.Class == "depends-on-process-history" {
+		ja := c.runWorker(1, 300*time.Second, "-from", fmt.Sprint(rf.CrossChunkA), "-to", fmt.Sprint(rf.CrossChunkA+1), "-samples", "0")
+		jb := c.runWorker(1, 300*time.Second, "-from", fmt.Sprint(rf.CrossChunkB), "-to", fmt.Sprint(rf.CrossChunkB+1), "-samples", "0")
+		if ja.err != nil || jb.err != nil {
+			fmt.Fprintln(os.Stderr, "MACHINERY:", ja.err, jb.err)
+			return 2
+		}
+		i := rf.CrossIndex
+		if i < len(ja.res.PerProcess) && i < len(jb.res.PerProcess) && ja.res.PerProcess[i] != jb.res.PerProcess[i] {
+			fmt.Printf("replay of %s: %s\n  process of chunk %d: %s\n  process of chunk %d: %s\n", path, rf.CrossWhat, rf.CrossChunkA, ja.res.PerProcess[i], rf.CrossChunkB, jb.res.PerProcess[i])
+			fmt.Printf("VIOLATION property=%s replay=%s\n", rf.Property, path)
+			return 1
+		}
+		fmt.Printf("replay of %s: the two processes agree on the current tree\n", path)
+		return 0
+	}
 	got, lg, ok := c.tryReplay(rf.Violation, rf.Class)
 	if !ok {
 		fmt.Printf("replay of %s: violation class %s did NOT recur on the current tree\n", path, rf.Class)
